@@ -758,6 +758,10 @@ class FormSum(BaseForm):
 
         return super().__new__(cls)
 
+    def __reduce__(self):
+        """Rebuild from the weighted components (pickle, copy): __new__ needs them."""
+        return (FormSum, tuple(zip(self._components, self._weights)))
+
     def __init__(self, *components):
         """Initialise."""
         BaseForm.__init__(self)
